@@ -725,3 +725,502 @@ theorem foldl_zipWith_getElem? {σ α : Type} (f : σ → α → σ) (hist : Lis
 
 end ring
 end Brax.C15
+
+/-! # Deepening (round 2): whole `generate_unroll`, batched unroll = map, evaluation accumulators
+without the global 0/1 assumption, counting lemmas for the `Evaluator` horizon -/
+namespace Brax.C15
+variable {K P O X R A : Type}
+
+/-! ### `generate_unroll` as a whole (any view / step / policy / key splitting) -/
+section unrollGen
+variable {S Ky : Type} [One R] [Sub R]
+
+/-- the key carried by `generate_unroll` after `t` iterations (`next_key` of every split) -/
+def keyAt (split : Ky → Ky × Ky) : Nat → Ky → Ky
+  | 0, key => key
+  | t + 1, key => keyAt split t (split key).2
+
+/-- result `(nstate, transition)` of the `t`-th (0-based) `actor_step` of `generate_unroll` -/
+def unrollAt (v : View S O R) (step : S → A → S) (π : O → Ky → A) (split : Ky → Ky × Ky) :
+    Nat → S → Ky → S × Transition O A R
+  | 0, s, key => actorStep v step π s (split key).1
+  | t + 1, s, key =>
+    unrollAt v step π split t (actorStep v step π s (split key).1).1 (split key).2
+
+/-- the actions the policy chose along an unroll of length `n` -/
+def unrollActs (v : View S O R) (step : S → A → S) (π : O → Ky → A) (split : Ky → Ky × Ky)
+    (n : Nat) (s : S) (key : Ky) : List A :=
+  (unroll v step π split n s key).2.map (·.action)
+
+variable (v : View S O R) (step : S → A → S) (π : O → Ky → A) (split : Ky → Ky × Ky)
+
+theorem unroll_snd_eq_range (n : Nat) (s : S) (key : Ky) :
+    (unroll v step π split n s key).2
+      = (List.range n).map fun t => (unrollAt v step π split t s key).2 := by
+  induction n generalizing s key with
+  | zero => rfl
+  | succ n ih =>
+    simp only [unroll, List.range_succ_eq_map, List.map_cons, List.map_map, ih]
+    rfl
+
+theorem unroll_length (n : Nat) (s : S) (key : Ky) :
+    (unroll v step π split n s key).2.length = n := by
+  rw [unroll_snd_eq_range, List.length_map, List.length_range]
+
+theorem unroll_fst_succ (t : Nat) (s : S) (key : Ky) :
+    (unroll v step π split (t + 1) s key).1 = (unrollAt v step π split t s key).1 := by
+  induction t generalizing s key with
+  | zero => rfl
+  | succ t ih =>
+    show (unroll v step π split (t + 1) _ _).1 = _
+    rw [ih]; rfl
+
+/-- the `t`-th `actor_step` acts on the state reached by the unroll of length `t`, with the
+first half of the split of the carried key -/
+theorem unrollAt_eq (t : Nat) (s : S) (key : Ky) :
+    unrollAt v step π split t s key
+      = actorStep v step π (unroll v step π split t s key).1 (split (keyAt split t key)).1 := by
+  induction t generalizing s key with
+  | zero => rfl
+  | succ t ih =>
+    show unrollAt v step π split t _ _ = _
+    rw [ih]; rfl
+
+theorem unrollActs_succ (t : Nat) (s : S) (key : Ky) :
+    unrollActs v step π split (t + 1) s key
+      = unrollActs v step π split t s key ++ [(unrollAt v step π split t s key).2.action] := by
+  simp only [unrollActs, unroll_snd_eq_range, List.range_succ, List.map_append, List.map_cons,
+    List.map_nil]
+
+theorem unrollActs_length (n : Nat) (s : S) (key : Ky) :
+    (unrollActs v step π split n s key).length = n := by
+  rw [unrollActs, List.length_map, unroll_length]
+
+/-- the state returned by an unroll is the fold of the environment step over the chosen actions -/
+theorem unroll_fst_foldl (n : Nat) (s : S) (key : Ky) :
+    (unroll v step π split n s key).1 = (unrollActs v step π split n s key).foldl step s := by
+  induction n with
+  | zero => rfl
+  | succ n ih =>
+    rw [unrollActs_succ, List.foldl_append, ← ih, unroll_fst_succ, unrollAt_eq]
+    rfl
+
+theorem unroll_getElem? (n t : Nat) (ht : t < n) (s : S) (key : Ky) :
+    (unroll v step π split n s key).2[t]? = some (unrollAt v step π split t s key).2 := by
+  rw [unroll_snd_eq_range, List.getElem?_map, List.getElem?_range ht]; rfl
+
+end unrollGen
+
+/-! ### batched `generate_unroll` = map of the single-member unrolls (generic in the wrapper stack) -/
+section bUnrollGen
+variable {S BS ι Ky : Type}
+
+/-- a policy acting member-wise with one (possibly different) member policy per batch row -/
+def polZip (πs : List (List R → Ky → A)) : List (List R) → Ky → List A :=
+  fun obs key => List.zipWith (fun π o => π o key) πs obs
+
+variable [One R] [Sub R]
+
+theorem bActorStep_map_gen (stack : List S → BS) (v : View S (List R) R) (bv : BView BS R)
+    (step : S → A → S) (bstep : BS → List A → BS)
+    (hobs : ∀ m, bv.obs (stack m) = m.map v.obs) (hrew : ∀ m, bv.reward (stack m) = m.map v.reward)
+    (hdone : ∀ m, bv.done (stack m) = m.map v.done)
+    (htr : ∀ m, bv.truncation (stack m) = m.map v.truncation)
+    (l : List ι) (p : ι → List R → Ky → A) (pol : List (List R) → Ky → List A)
+    (hpol : ∀ (f : ι → List R) key, pol (l.map f) key = l.map fun x => p x (f x) key)
+    (g : ι → S) (key : Ky)
+    (hstep : bstep (stack (l.map g)) (l.map fun x => p x (v.obs (g x)) key)
+      = stack (l.map fun x => step (g x) (p x (v.obs (g x)) key))) :
+    bActorStep bv bstep pol (stack (l.map g)) key
+      = (stack (l.map fun x => (actorStep v step (p x) (g x) key).1),
+         BTransition.stack (l.map fun x => (actorStep v step (p x) (g x) key).2)) := by
+  have h1 : pol (l.map fun x => v.obs (g x)) key = l.map fun x => p x (v.obs (g x)) key :=
+    hpol _ key
+  simp only [bActorStep, hobs, List.map_map, Function.comp_def, h1, hstep, hrew, hdone, htr,
+    actorStep, BTransition.stack]
+
+theorem bUnroll_map_gen (stack : List S → BS) (v : View S (List R) R) (bv : BView BS R)
+    (step : S → A → S) (bstep : BS → List A → BS) (Q : S → Prop)
+    (hobs : ∀ m, bv.obs (stack m) = m.map v.obs) (hrew : ∀ m, bv.reward (stack m) = m.map v.reward)
+    (hdone : ∀ m, bv.done (stack m) = m.map v.done)
+    (htr : ∀ m, bv.truncation (stack m) = m.map v.truncation)
+    (hQ : ∀ s a, Q s → Q (step s a))
+    (l : List ι) (p : ι → List R → Ky → A) (pol : List (List R) → Ky → List A)
+    (hpol : ∀ (f : ι → List R) key, pol (l.map f) key = l.map fun x => p x (f x) key)
+    (hstep : ∀ (g : ι → S) (h : ι → A), (∀ x ∈ l, Q (g x)) →
+      bstep (stack (l.map g)) (l.map h) = stack (l.map fun x => step (g x) (h x)))
+    (split : Ky → Ky × Ky) (n : Nat) (g : ι → S) (hg : ∀ x ∈ l, Q (g x)) (key : Ky) :
+    bUnroll bv bstep pol split n (stack (l.map g)) key
+      = (stack (l.map fun x => (unroll v step (p x) split n (g x) key).1),
+         (List.range n).map fun t =>
+           BTransition.stack (l.map fun x => (unrollAt v step (p x) split t (g x) key).2)) := by
+  induction n generalizing g key with
+  | zero => rfl
+  | succ n ih =>
+    have hs := bActorStep_map_gen stack v bv step bstep hobs hrew hdone htr l p pol hpol g
+      (split key).1 (hstep g _ hg)
+    have hg' : ∀ x ∈ l, Q ((actorStep v step (p x) (g x) (split key).1).1) :=
+      fun x hx => hQ _ _ (hg x hx)
+    have := ih (fun x => (actorStep v step (p x) (g x) (split key).1).1) hg' (split key).2
+    simp only [bUnroll, hs, this, List.range_succ_eq_map, List.map_cons, List.map_map]
+    rfl
+
+end bUnrollGen
+
+/-! ### the two wrapper stacks as instances -/
+section ring
+variable [CommRing R] [LinearOrder R] [IsStrictOrderedRing R] {ι Ky : Type}
+
+theorem bUnroll_ar_map (env : BEnv K P X R A) (n : Nat)
+    (hstep : ∀ s a, (env.step s a).obs.length = n) (L r : Nat)
+    (l : List ι) (p : ι → List R → Ky → A) (pol : List (List R) → Ky → List A)
+    (hpol : ∀ (f : ι → List R) key, pol (l.map f) key = l.map fun x => p x (f x) key)
+    (split : Ky → Ky × Ky) (N : Nat) (g : ι → ArSt P (List R) X R)
+    (hg : ∀ x ∈ l, WFm n (g x)) (key : Ky) :
+    bUnroll bArView (bArStep env L r) pol split N (BArSt.stack (l.map g)) key
+      = (BArSt.stack (l.map fun x => (unroll arView (arStep env L r) (p x) split N (g x) key).1),
+         (List.range N).map fun t => BTransition.stack
+           (l.map fun x => (unrollAt arView (arStep env L r) (p x) split t (g x) key).2)) := by
+  apply bUnroll_map_gen BArSt.stack arView bArView (arStep env L r) (bArStep env L r) (WFm n)
+  · intro m; simp only [bArView, arView, BArSt.stack, BEpSt.stack, BSt.stack, List.map_map,
+      Function.comp_def]
+  · intro m; simp only [bArView, arView, BArSt.stack, BEpSt.stack, BSt.stack, List.map_map,
+      Function.comp_def]
+  · intro m; simp only [bArView, arView, BArSt.stack, BEpSt.stack, BSt.stack, List.map_map,
+      Function.comp_def]
+  · intro m; simp only [bArView, arView, BArSt.stack, BEpSt.stack, BSt.stack, List.map_map,
+      Function.comp_def]
+  · exact fun s a hs => wfm_step env n hstep L r s hs a
+  · exact hpol
+  · intro g h hg
+    exact bArStep_map env L r l g h (fun x hx => by
+      rw [wfm_inner env n hstep L r (g x) (hg x hx)]; exact (hg x hx).1)
+  · exact hg
+
+theorem bUnroll_ev_map (env : BEnv K P X R A) (n : Nat)
+    (hstep : ∀ s a, (env.step s a).obs.length = n) (L r : Nat)
+    (l : List ι) (p : ι → List R → Ky → A) (pol : List (List R) → Ky → List A)
+    (hpol : ∀ (f : ι → List R) key, pol (l.map f) key = l.map fun x => p x (f x) key)
+    (split : Ky → Ky × Ky) (N : Nat) (g : ι → EvSt P (List R) X R)
+    (hg : ∀ x ∈ l, WFm n (g x).ar) (key : Ky) :
+    bUnroll bEvView (bEvStep env L r) pol split N (BEvSt.stack (l.map g)) key
+      = (BEvSt.stack (l.map fun x => (unroll evView (evStep env L r) (p x) split N (g x) key).1),
+         (List.range N).map fun t => BTransition.stack
+           (l.map fun x => (unrollAt evView (evStep env L r) (p x) split t (g x) key).2)) := by
+  apply bUnroll_map_gen BEvSt.stack evView bEvView (evStep env L r) (bEvStep env L r)
+    (fun s => WFm n s.ar)
+  · intro m; simp only [bEvView, evView, BEvSt.stack, BArSt.stack, BEpSt.stack, BSt.stack,
+      List.map_map, Function.comp_def]
+  · intro m; simp only [bEvView, evView, BEvSt.stack, BArSt.stack, BEpSt.stack, BSt.stack,
+      List.map_map, Function.comp_def]
+  · intro m; simp only [bEvView, evView, BEvSt.stack, BArSt.stack, BEpSt.stack, BSt.stack,
+      List.map_map, Function.comp_def]
+  · intro m; simp only [bEvView, evView, BEvSt.stack, BArSt.stack, BEpSt.stack, BSt.stack,
+      List.map_map, Function.comp_def]
+  · exact fun s a hs => wfm_step env n hstep L r s.ar hs a
+  · exact hpol
+  · intro g h hg
+    exact bEvStep_map env L r l g h (fun x hx => by
+      rw [wfm_inner env n hstep L r (g x).ar (hg x hx)]; exact (hg x hx).1)
+  · exact hg
+
+theorem bEvalRun_map_gen (env : BEnv K P X R A) (n : Nat)
+    (hreset : ∀ k, (env.reset k).obs.length = n) (hstep : ∀ s a, (env.step s a).obs.length = n)
+    (L r : Nat) (l : List ι) (p : ι → List R → Ky → A) (pol : List (List R) → Ky → List A)
+    (hpol : ∀ (f : ι → List R) key, pol (l.map f) key = l.map fun x => p x (f x) key)
+    (split : Ky → Ky × Ky) (kf : ι → K) (key : Ky) :
+    bEvalRun env L r pol split (l.map kf) key
+      = BEvSt.stack (l.map fun x => evalRun env L r (p x) split (kf x) key) := by
+  rw [bEvalRun, bEvReset_eq, List.map_map,
+    bUnroll_ev_map env n hstep L r l p pol hpol split (L / r) (evReset env ∘ kf)
+      (fun x _ => ⟨hreset _, hreset _⟩) key]
+  rfl
+
+theorem polZip_map (l : List ι) (p : ι → List R → Ky → A) (f : ι → List R) (key : Ky) :
+    polZip (l.map p) (l.map f) key = l.map fun x => p x (f x) key := by
+  simp only [polZip, zipWith_map_map]
+
+end ring
+
+/-! ### evaluation accumulators without the global 0/1 assumption -/
+section ring
+variable [CommRing R] [LinearOrder R] [IsStrictOrderedRing R]
+
+theorem firstEp_cons_mem (x : ArSt P O X R) (tr : List (ArSt P O X R)) : x ∈ firstEp (x :: tr) := by
+  simp only [firstEp, takeThrough]
+  split <;> simp
+
+theorem firstEp_cons_zero (x : ArSt P O X R) (tr : List (ArSt P O X R)) (hd : x.done = 0) :
+    firstEp (x :: tr) = x :: firstEp tr := by
+  simp only [firstEp, takeThrough, hd, ne_eq, not_true_eq_false, decide_false,
+    Bool.false_eq_true, if_false]
+
+theorem firstEp_cons_ne (x : ArSt P O X R) (tr : List (ArSt P O X R)) (hd : x.done ≠ 0) :
+    firstEp (x :: tr) = [x] := by
+  simp only [firstEp, takeThrough, hd, ne_eq, not_false_eq_true, decide_true, if_true]
+
+/-- `evFold_active` with the hypothesis only on the wrapped `done` flags of the first episode of
+the history at hand (in fact: on its closing flag) -/
+theorem evFold_active' (env : Env K P O X R A) (L r : Nat)
+    (s : EvSt P O X R) (h1 : s.active = 1) (as : List A)
+    (hb : ∀ t ∈ firstEp (traceFrom env L r s.ar as), t.done = 0 ∨ t.done = 1) :
+    (as.foldl (evStep env L r) s).emReward
+      = s.emReward + ((firstEp (traceFrom env L r s.ar as)).map (·.reward)).sum ∧
+    (as.foldl (evStep env L r) s).active
+      = (if (traceFrom env L r s.ar as).any (fun t => decide (t.done ≠ 0)) then 0 else 1) ∧
+    (as.foldl (evStep env L r) s).episodeSteps
+      = (((firstEp (traceFrom env L r s.ar as)).getLast?).map (·.steps)).getD s.episodeSteps := by
+  induction as generalizing s with
+  | nil => simp [traceFrom, firstEp, takeThrough, h1]
+  | cons a as ih =>
+    simp only [List.foldl_cons, traceFrom] at hb ⊢
+    have hsr : (evStep env L r s a).emReward = s.emReward + (arStep env L r s.ar a).reward := by
+      simp only [evStep, h1, mul_one]
+    have hss : (evStep env L r s a).episodeSteps = (arStep env L r s.ar a).steps := by
+      simp only [evStep, h1, whereNZ, one_ne_zero, if_false]
+    have hsa : (evStep env L r s a).ar = arStep env L r s.ar a := rfl
+    rcases hb _ (firstEp_cons_mem _ _) with hd | hd
+    · have hact : (evStep env L r s a).active = 1 := by
+        simp only [evStep, h1, hd, sub_zero, mul_one]
+      have hfe := firstEp_cons_zero _ (traceFrom env L r (arStep env L r s.ar a) as) hd
+      have h := ih (evStep env L r s a) hact (by
+        intro t ht; rw [hsa] at ht; apply hb; rw [hfe]; exact List.mem_cons_of_mem _ ht)
+      rw [hsa] at h
+      refine ⟨?_, ?_, ?_⟩
+      · rw [h.1, hfe, hsr, List.map_cons, List.sum_cons, add_assoc]
+      · rw [h.2.1]
+        simp only [List.any_cons, hd, ne_eq, not_true_eq_false, decide_false, Bool.false_or]
+      · rw [h.2.2, hfe, getLast_cons_getD, hss]
+    · have hact : (evStep env L r s a).active = 0 := by
+        simp only [evStep, hd, sub_self, mul_zero]
+      have h := evFold_frozen env L r (evStep env L r s a) hact as
+      have hfe := firstEp_cons_ne _ (traceFrom env L r (arStep env L r s.ar a) as)
+        (by rw [hd]; exact one_ne_zero)
+      refine ⟨?_, ?_, ?_⟩
+      · rw [h.2.1, hfe, hsr]; simp
+      · rw [h.1]
+        simp only [List.any_cons, hd, ne_eq, one_ne_zero, not_false_eq_true, decide_true,
+          Bool.true_or, if_true]
+      · rw [h.2.2, hfe, hss]; simp
+
+theorem evFold_active_metrics' (env : Env K P O X R A)
+    (hm : ∀ s a, (env.step s a).metrics.length = s.metrics.length) (L r : Nat)
+    (s : EvSt P O X R) (h1 : s.active = 1) (hl : s.emMetrics.length = s.ar.metrics.length)
+    (as : List A)
+    (hb : ∀ t ∈ firstEp (traceFrom env L r s.ar as), t.done = 0 ∨ t.done = 1) :
+    (as.foldl (evStep env L r) s).emMetrics
+      = (firstEp (traceFrom env L r s.ar as)).foldl
+          (fun acc t => List.zipWith (· + ·) acc t.metrics) s.emMetrics := by
+  induction as generalizing s with
+  | nil => simp [traceFrom, firstEp, takeThrough]
+  | cons a as ih =>
+    simp only [List.foldl_cons, traceFrom] at hb ⊢
+    have hsm : (evStep env L r s a).emMetrics
+        = List.zipWith (· + ·) s.emMetrics (arStep env L r s.ar a).metrics := by
+      simp only [evStep, h1, mul_one]
+    have hsa : (evStep env L r s a).ar = arStep env L r s.ar a := rfl
+    have hl' : (evStep env L r s a).emMetrics.length = (evStep env L r s a).ar.metrics.length := by
+      rw [hsm, hsa, List.length_zipWith, hl, metrics_len env hm]; simp
+    rcases hb _ (firstEp_cons_mem _ _) with hd | hd
+    · have hact : (evStep env L r s a).active = 1 := by
+        simp only [evStep, h1, hd, sub_zero, mul_one]
+      have hfe := firstEp_cons_zero _ (traceFrom env L r (arStep env L r s.ar a) as) hd
+      have h := ih (evStep env L r s a) hact hl' (by
+        intro t ht; rw [hsa] at ht; apply hb; rw [hfe]; exact List.mem_cons_of_mem _ ht)
+      rw [hsa] at h
+      rw [h, hfe, List.foldl_cons, hsm]
+    · have hact : (evStep env L r s a).active = 0 := by
+        simp only [evStep, hd, sub_self, mul_zero]
+      have h := evFold_frozen_metrics env hm L r (evStep env L r s a) hact hl' as
+      have hfe := firstEp_cons_ne _ (traceFrom env L r (arStep env L r s.ar a) as)
+        (by rw [hd]; exact one_ne_zero)
+      rw [h, hfe, hsm]; rfl
+
+/-- without any assumption on the flags: the weight `active_episodes` after a history is the
+product of `1 - done` over its wrapped steps -/
+theorem evFold_active_prod (env : Env K P O X R A) (L r : Nat) (s : EvSt P O X R) (as : List A) :
+    (as.foldl (evStep env L r) s).active
+      = s.active * ((traceFrom env L r s.ar as).map fun t => 1 - t.done).prod := by
+  induction as generalizing s with
+  | nil => simp [traceFrom]
+  | cons a as ih =>
+    simp only [List.foldl_cons, traceFrom, List.map_cons, List.prod_cons]
+    rw [ih]
+    have hsa : (evStep env L r s a).ar = arStep env L r s.ar a := rfl
+    rw [hsa]
+    simp only [evStep, mul_assoc]
+
+/-- one more step from an active member, no assumption on the flag -/
+theorem evStep_active_one (env : Env K P O X R A) (L r : Nat) (s : EvSt P O X R)
+    (h1 : s.active = 1) (a : A) :
+    (evStep env L r s a).emReward = s.emReward + (arStep env L r s.ar a).reward ∧
+    (evStep env L r s a).episodeSteps = (arStep env L r s.ar a).steps ∧
+    (evStep env L r s a).active = 1 - (arStep env L r s.ar a).done := by
+  refine ⟨?_, ?_, ?_⟩
+  · simp only [evStep, h1, mul_one]
+  · simp only [evStep, h1, whereNZ, one_ne_zero, if_false]
+  · simp only [evStep, h1, one_mul]
+
+/-! ### traces, counts -/
+
+theorem list_snoc_induction {α : Type} {motive : List α → Prop} (nil : motive [])
+    (snoc : ∀ l a, motive l → motive (l ++ [a])) : ∀ l, motive l := by
+  intro l
+  induction h : l.length generalizing l with
+  | zero =>
+    have := List.eq_nil_of_length_eq_zero h
+    subst this; exact nil
+  | succ n ih =>
+    rcases List.eq_nil_or_concat l with rfl | ⟨l', b, rfl⟩
+    · simp at h
+    · rw [List.concat_eq_append] at h ⊢
+      apply snoc; apply ih
+      simp only [List.length_append, List.length_singleton] at h; omega
+
+theorem traceFrom_snoc (env : Env K P O X R A) (L r : Nat) (s : ArSt P O X R) (as : List A) (a : A) :
+    traceFrom env L r s (as ++ [a])
+      = traceFrom env L r s as ++ [arStep env L r (as.foldl (arStep env L r) s) a] := by
+  induction as generalizing s with
+  | nil => rfl
+  | cons b bs ih => simp only [List.cons_append, traceFrom, List.foldl_cons, ih]
+
+theorem trace_snoc (env : Env K P O X R A) (L r : Nat) (k : K) (as : List A) (a : A) :
+    trace env L r k (as ++ [a]) = trace env L r k as ++ [run env L r k (as ++ [a])] := by
+  rw [trace, traceFrom_snoc, run_snoc]; rfl
+
+theorem trace_length (env : Env K P O X R A) (L r : Nat) (k : K) (as : List A) :
+    (trace env L r k as).length = as.length := by
+  induction as using list_snoc_induction with
+  | nil => rfl
+  | snoc as a ih => rw [trace_snoc, List.length_append, ih]; simp
+
+theorem count_le_length (env : Env K P O X R A) (L r : Nat) (k : K) (as : List A) :
+    count env L r k as ≤ as.length := by
+  induction as using list_snoc_induction with
+  | nil => exact Nat.le_refl 0
+  | snoc as a ih =>
+    rw [count_snoc, List.length_append, List.length_singleton]
+    split <;> omega
+
+/-- while no wrapped step has reported done, the position in the episode is the number of steps -/
+theorem count_eq_length (env : Env K P O X R A) (L r : Nat) (k : K) (as : List A)
+    (h : ∀ t ∈ trace env L r k as, t.done = 0) : count env L r k as = as.length := by
+  induction as using list_snoc_induction with
+  | nil => rfl
+  | snoc as a ih =>
+    rw [trace_snoc] at h
+    have hpre : ∀ t ∈ trace env L r k as, t.done = 0 :=
+      fun t ht => h t (List.mem_append_left _ ht)
+    rw [count_snoc, ih hpre, List.length_append, List.length_singleton]
+    rcases List.eq_nil_or_concat as with rfl | ⟨bs, b, rfl⟩
+    · simp
+    · rw [List.concat_eq_append] at hpre ⊢
+      have : (run env L r k (bs ++ [b])).done = 0 := by
+        apply hpre; rw [trace_snoc]; simp
+      rw [if_pos this]
+
+end ring
+
+section ring
+variable [CommRing R] [LinearOrder R] [IsStrictOrderedRing R]
+
+/-- a step at position `length` of its episode: no earlier wrapped step reported done -/
+theorem count_full_imp (env : Env K P O X R A) (L r : Nat) (k : K) (as : List A) (a : A)
+    (h : count env L r k (as ++ [a]) = as.length + 1) : ∀ t ∈ trace env L r k as, t.done = 0 := by
+  induction as using list_snoc_induction generalizing a with
+  | nil => intro t ht; simp [trace, traceFrom] at ht
+  | snoc bs b ih =>
+    rw [count_snoc, List.length_append, List.length_singleton] at h
+    have hle := count_le_length (R := R) env L r k (bs ++ [b])
+    rw [List.length_append, List.length_singleton] at hle
+    by_cases hd : (run env L r k (bs ++ [b])).done = 0
+    · rw [if_pos hd] at h
+      have := ih b (by omega)
+      intro t ht
+      rw [trace_snoc, List.mem_append, List.mem_singleton] at ht
+      rcases ht with ht | rfl
+      · exact this t ht
+      · exact hd
+    · rw [if_neg hd] at h; omega
+
+theorem iter_done_zero (env : Env K P O X R A) (hnt : ∀ s a, (env.step s a).done = 0) (a : A)
+    {r : Nat} (hr : 1 ≤ r) (s : St P O X R) : (iter env a r s).done = 0 := by
+  obtain ⟨q, rfl⟩ : ∃ q, r = q + 1 := ⟨r - 1, by omega⟩
+  clear hr
+  induction q generalizing s with
+  | zero => exact hnt s a
+  | succ q ih => exact ih (env.step s a)
+
+theorem takeThrough_subset {α : Type} (p : α → Bool) (l : List α) :
+    ∀ x ∈ takeThrough p l, x ∈ l := by
+  induction l with
+  | nil => intro x hx; simp [takeThrough] at hx
+  | cons y ys ih =>
+    intro x hx
+    simp only [takeThrough] at hx
+    split at hx
+    · simp only [List.mem_singleton] at hx; subst hx; exact List.mem_cons_self
+    · rw [List.mem_cons] at hx
+      rcases hx with rfl | hx
+      · exact List.mem_cons_self
+      · exact List.mem_cons_of_mem _ (ih x hx)
+
+theorem takeThrough_all_false {α : Type} (p : α → Bool) (l : List α) (h : ∀ y ∈ l, p y = false) :
+    takeThrough p l = l := by
+  induction l with
+  | nil => rfl
+  | cons y ys ih =>
+    simp only [takeThrough, h y List.mem_cons_self, Bool.false_eq_true, if_false]
+    rw [ih fun z hz => h z (List.mem_cons_of_mem _ hz)]
+
+theorem takeThrough_snoc_all {α : Type} (p : α → Bool) (l : List α) (x : α)
+    (h : ∀ y ∈ l, p y = false) : takeThrough p (l ++ [x]) = l ++ [x] := by
+  induction l with
+  | nil => simp only [List.nil_append, takeThrough]; split <;> rfl
+  | cons y ys ih =>
+    simp only [List.cons_append, takeThrough, h y List.mem_cons_self, Bool.false_eq_true, if_false]
+    rw [ih fun z hz => h z (List.mem_cons_of_mem _ hz)]
+
+theorem firstEp_subset (tr : List (ArSt P O X R)) : ∀ t ∈ firstEp tr, t ∈ tr :=
+  takeThrough_subset _ tr
+
+theorem firstEp_all_zero (tr : List (ArSt P O X R)) (h : ∀ t ∈ tr, t.done = 0) : firstEp tr = tr :=
+  takeThrough_all_false _ tr (fun t ht => by simp [h t ht])
+
+theorem firstEp_snoc_all_zero (tr : List (ArSt P O X R)) (x : ArSt P O X R)
+    (h : ∀ t ∈ tr, t.done = 0) : firstEp (tr ++ [x]) = tr ++ [x] :=
+  takeThrough_snoc_all _ tr x (fun t ht => by simp [h t ht])
+
+theorem trace_getLast (env : Env K P O X R A) (L r : Nat) (k : K) (as : List A) (a : A) :
+    (trace env L r k (as ++ [a])).getLast? = some (run env L r k (as ++ [a])) := by
+  rw [trace_snoc]; simp
+
+theorem run_append (env : Env K P O X R A) (L r : Nat) (k : K) (as bs : List A) :
+    run env L r k (as ++ bs) = bs.foldl (arStep env L r) (run env L r k as) := by
+  simp only [run, List.foldl_append]
+
+end ring
+
+section ring
+variable [CommRing R] [LinearOrder R] [IsStrictOrderedRing R]
+
+theorem count_snoc_of_zero (env : Env K P O X R A) (L r : Nat) (k : K) (as : List A) (a : A)
+    (h : ∀ t ∈ trace env L r k as, t.done = 0) : count env L r k (as ++ [a]) = as.length + 1 := by
+  rw [count_snoc, count_eq_length env L r k as h]
+  rcases List.eq_nil_or_concat as with rfl | ⟨bs, b, rfl⟩
+  · simp
+  · rw [List.concat_eq_append] at h ⊢
+    have : (run env L r k (bs ++ [b])).done = 0 := by
+      apply h; rw [trace_snoc]; simp
+    rw [if_pos this]
+
+variable {Ky : Type}
+
+/-- the actions the policy chooses during `Evaluator._generate_eval_unroll` (one member) -/
+def evalActs (env : Env K P O X R A) (L r : Nat) (π : O → Ky → A) (split : Ky → Ky × Ky) (k : K)
+    (key : Ky) : List A :=
+  unrollActs evView (evStep env L r) π split (L / r) (evReset env k) key
+
+end ring
+
+end Brax.C15
